@@ -13,6 +13,11 @@ var verifPanicObservers sync.Map // *WorkerLoop -> func(interface{})
 
 // VerifObserveRecoveredPanics registers an observer for panics that handleRawMessage recovers from.
 func (lh *WorkerLoop) VerifObserveRecoveredPanics(f func(r interface{})) {
+	if f == nil { // unregister (the registry must not keep finished harness worlds alive)
+		verifPanicObservers.Delete(lh)
+		lh.filter.VerifObserveRecoveredPanics(nil)
+		return
+	}
 	verifPanicObservers.Store(lh, f)
 	lh.filter.VerifObserveRecoveredPanics(func(r interface{}, message interfaces.ConsensusMessage) { f(verifFilterPanic{r, message}) })
 }
